@@ -10,7 +10,7 @@ import time
 from typing import Any, Dict, List, Optional
 
 VERIF = pathlib.Path(__file__).resolve().parent.parent
-EVIDENCE_DIR = VERIF / "evidence"
+EVIDENCE_DIR = pathlib.Path(os.environ.get("VERIF_EVIDENCE_DIR") or (VERIF / "evidence"))
 REPLAY_DIR = EVIDENCE_DIR / "replay"
 KNOWN_FILE = VERIF / "KNOWN_FINDINGS.txt"
 
@@ -162,7 +162,7 @@ def finish(rep: Report) -> int:
         "wall_s": round(wall, 3),
         "violations": len(new),
     }
-    EVIDENCE_DIR.mkdir(exist_ok=True)
+    EVIDENCE_DIR.mkdir(parents=True, exist_ok=True)
     (EVIDENCE_DIR / f"{rep.prop}.json").write_text(json.dumps(ev, indent=1, sort_keys=False, default=str) + "\n")
 
     print(f"[{rep.prop}] tier={rep.tier} repo={rep.repo} rules={len(rep.rules)} obligations={n_ob} "
